@@ -303,6 +303,123 @@ def exhaustive_exprs(depth):
     return level[depth]
 
 
+
+# model correspondence: expression parser / printer at token level ---------------------------------
+
+KIND_TO_TK = {"Plus": "plus", "Slash": "slash", "AmpersandAmpersand": "andand", "BarBar": "barbar", "ParenL": "lparen", "ParenR": "rparen",
+              "Comma": "comma", "BraceL": "lbrace", "BraceR": "rbrace", "EqualsEquals": "eqeq", "BangEquals": "bangeq",
+              "EqualsTilde": "eqtilde", "BangTilde": "bangtilde"}
+
+
+def to_tks(text, toks):
+    """lexer tokens of an expression text -> model tokens (white space dropped)"""
+    b = text.encode("utf-8")
+    out = []
+    for t in toks:
+        k = t["kind"]
+        lex = b[t["offset"]:t["offset"] + t["length"]].decode("utf-8")
+        if k in ("Whitespace", "Eol", "Eof"):
+            continue
+        if k == "Identifier":
+            out.append({"k": "ident", "s": lex})
+        elif k == "StringToken":
+            out.append({"k": "str", "s": lex})
+        elif k == "Backtick":
+            out.append({"k": "bt", "s": lex})
+        elif k in KIND_TO_TK:
+            out.append({"k": KIND_TO_TK[k]})
+        else:
+            out.append({"k": k})
+    return out
+
+
+def gen_model_expr(rng, depth, lvl=3):
+    """expressions whose leaves are plain one-line literals (so that the dump shows them as written)"""
+    def value(d):
+        r = rng.random()
+        if d <= 0 or r < 0.35:
+            return rng.choice(["'s%d'" % rng.randrange(5), "v%d" % rng.randrange(3), "`b%d`" % rng.randrange(3), "arch()", "else", "x", "assert_", "iff"])
+        if r < 0.55:
+            return "(%s)" % expr(d - 1)
+        if r < 0.7:
+            return "trim(%s)" % expr(d - 1)
+        if r < 0.8:
+            return "replace(%s, %s, %s%s)" % (expr(d - 1), expr(d - 1), expr(d - 1), rng.choice(["", ","]))
+        if r < 0.9:
+            return "assert(%s %s %s, %s)" % (expr(d - 1), rng.choice(["==", "!=", "=~", "!~"]), expr(d - 1), expr(d - 1))
+        return "env(%s)" % expr(d - 1)
+
+    def conditional(d):
+        s = "if %s %s %s { %s } else " % (expr(d - 1), rng.choice(["==", "!=", "=~", "!~"]), expr(d - 1), expr(d - 1))
+        r = rng.random()
+        if r < 0.35 and d > 0:
+            return s + conditional(d - 1)
+        if r < 0.5 and d > 0:
+            return s + "{ %s }" % conditional(d - 1)
+        return s + "{ %s }" % expr(d - 1)
+
+    def conjunct(d):
+        r = rng.random()
+        if d <= 0 or r < 0.35:
+            return value(d)
+        if r < 0.55:
+            return "%s + %s" % (value(d - 1), conjunct(d - 1))
+        if r < 0.7:
+            return "%s / %s" % (value(d - 1), conjunct(d - 1))
+        if r < 0.8:
+            return "/ %s" % conjunct(d - 1)
+        return conditional(d)
+
+    def disjunct(d):
+        if d > 0 and rng.random() < 0.25:
+            return "%s && %s" % (conjunct(d - 1), disjunct(d - 1))
+        return conjunct(d)
+
+    def expr(d):
+        if d > 0 and rng.random() < 0.2:
+            return "%s || %s" % (disjunct(d - 1), expr(d - 1))
+        return disjunct(d)
+
+    return expr(depth)
+
+
+def model_stream(report, jv, dr, tier):
+    rng = random.Random(report.seed ^ 0x1010)
+    n = 3000 if tier == "quick" else 60000
+    exprs = [gen_model_expr(rng, rng.randint(1, 4)) for _ in range(n)]
+    exprs += [e for e in exhaustive_exprs(2)[:1500]]
+    decls = "v := 'q'\nv0 := 'a'\nv1 := 'b'\nv2 := 'c'\nelse := 'e'\nx := 'x'\nassert_ := 'z'\niff := 'i'\nset unstable\n"
+    comp = jv.pbatch([{"op": "compile", "src": decls + "subject := " + e + "\n"} for e in exprs], chunk=500)
+    lexed = jv.pbatch([{"op": "lex", "src": e} for e in exprs])
+    ok = [(e, c, l) for e, c, l in zip(exprs, comp, lexed) if "dump" in c and "tokens" in l]
+    model = dr.pbatch([{"op": "syntax", "tokens": to_tks(e, l["tokens"])} for e, c, l in ok])
+    # the printed form as the implementation prints it
+    printed_texts = []
+    for e, c, l in ok:
+        f = c["formatted"]
+        marker = "subject := "
+        i = f.index(marker) + len(marker)
+        printed_texts.append(f[i:f.index("\n", i)])
+    relex = jv.pbatch([{"op": "lex", "src": t} for t in printed_texts])
+    mism = 0
+    for (e, c, l), m, ptext, rl in zip(ok, model, printed_texts, relex):
+        replay = {"op": "model", "expr": e}
+        want_ast = c["dump"]["assignments"]["subject"]["value"]
+        if m.get("ast") != want_ast or m.get("rest") != 0:
+            mism += 1
+            report.failure("c10-model-parser", "Lean expression parser and parser.rs disagree on the tree", dict(replay, correspondence="expression parser (vlib/c10.py)", model=m.get("ast"), impl=want_ast), no_input=True)
+            continue
+        if "tokens" not in rl or m.get("printed") != to_tks(ptext, rl["tokens"]):
+            mism += 1
+            report.failure("c10-model-printer", "Lean expression printer and Display for Expression disagree on the printed tokens",
+                           dict(replay, correspondence="expression printer (vlib/c10.py)", model=m.get("printed"), impl=ptext), no_input=True)
+            continue
+        if not m.get("reparse_same"):
+            mism += 1
+            report.failure("c10-model-roundtrip", "the model's own round trip failed on a parsed expression", replay, no_input=True)
+    return {"model_expressions": len(exprs), "model_compiling": len(ok), "model_mismatches": mism}
+
+
 def dump_of(r):
     return r.get("dump")
 
@@ -485,6 +602,7 @@ def run(report):
             report.failure("c10-meaning-changed:%s:%s" % (",".join(diff), sub), "--fmt changed the justfile's meaning (JSON dump differs in %s %s)" % (diff, sub),
                            dict(replay, after=o["after_fmt"]))
     stats["file_cases"] = kinds
+    stats.update(model_stream(report, jv, C.Driver(), tier))
     report.coverage.update({"inputs": len(srcs) + len(fcases)})
     report.coverage.update(stats)
     report.assumptions += [
